@@ -113,6 +113,64 @@ class WaitWalker(pathwalk.Walker):
                 st.events.append(('is-result', eq))
 
 
+def check_wait_return(ctx, fb, rr):
+    """R-WAITRETURN on every WaitRange instantiation (shared with C04: a wait that returns without last-one evidence
+    obtained through the counter's acquiring RMW neither synchronises with the producers nor keeps the stack event alive
+    for them)"""
+    ranges = [f for f in fb.fn.values() if f.qn == 'yaclib::detail::WaitRange' and f.cfg is not None]
+    if len(ranges) < 4:
+        ctx.broken('WaitRange instantiations missing (%d)' % len(ranges))
+    for f in ranges:
+        timed = not f.fta[1].endswith('NoTimeoutTag')
+        key = 'R-WAITRETURN WaitRange<%s>' % ('timed' if timed else 'untimed')
+        res = WaitWalker(fb).run(f)
+        ctx.instance(rr, key + ' :: ' + f.full[:140], dict(paths=len(res), timed=timed))
+        for st, rv in res:
+            ev = st.events
+            names = [e[0] for e in ev]
+            if 'register-pass' not in names:
+                ctx.broken('WaitRange: registration pass not recognised in %s' % f.full[:120])
+            early = ('none-registered', True) in ev or ('zero', True) in ev and 'wait' not in names
+            if 'reset-pass' in names:
+                i = names.index('reset-pass')
+                after = ev[i + 1:]
+                last_zero = None  # the waiter's own subtraction found zero: it is the last one only if it
+                for j, e in enumerate(after):  # subtracted something
+                    if e == ('zero', True):
+                        sub = [x for x in after[:j] if x[0] == 'subequal-call']
+                        kind = sub[-1][3] if sub else None
+                        last_zero = kind == 'pos' or (isinstance(kind, tuple) and ('nz', kind[1], True) in ev)
+                        if not last_zero:
+                            ctx.report(rr, key, sub[-1][2] if sub else f.where,
+                                       'the counter is tested for zero by subtracting a number that can be 0 on '
+                                       'this path: zero then means a producer brought it there and may still be '
+                                       'inside Set() on this (returning) stack frame',
+                                       'instantiation: ' + f.full[:300])
+                if last_zero is False:
+                    break
+                safe = ('reset-all', True) in after or last_zero or \
+                    any(e[0] == 'wait' and e[1] == 'untimed' for e in after)
+                if not safe:
+                    ctx.report(rr, key, f.where, 'a timed wait returns after its deadline while a producer that was '
+                               'not withdrawn may still complete and touch the event on this (returned) stack frame',
+                               'instantiation: ' + f.full[:300])
+                    break
+                if rv is not None and rv[0] == 'c' and rv[1] and ('reset-none', True) not in ev:
+                    ctx.report(rr, key, f.where, 'returns true although the deadline passed and some registrations '
+                               'had to be withdrawn (not all futures are ready)')
+                    break
+            else:
+                waited = [e for e in ev if e[0] == 'wait']
+                if not early and not waited:
+                    ctx.report(rr, key, f.where, 'returns without waiting although registered futures are pending')
+                    break
+                if timed and waited and waited[-1][1] == 'timed' and ('wait-result', True) not in ev:
+                    ctx.report(rr, key, f.where, 'returns after a timed wait that did not report ready, without the '
+                               'reset pass')
+                    break
+    return ranges
+
+
 def run(ctx):
     fbs = ctx.facts(['K17', 'K20'], kinds=('probe', 'lib'), only=r'p_async\.cpp$|p_coro\.cpp$|src/algo|src/util|src/async', tests=r'/test/',
                     quick_tests=r'unit/algo/wait\.cpp|unit/async/get\.cpp')
@@ -132,57 +190,8 @@ def run(ctx):
     rck = ctx.rule('R-CASKIND', 'withdraw CAS strong', minimum=1)
     for cfg, fb in sorted(fbs.items()):
         ctx.guard(lambda: lib_order.check(ctx, fb, cfg, ['yaclib::detail::BaseCore::_callback'], rwd, ro, rck))
-        ranges = [f for f in fb.fn.values() if f.qn == 'yaclib::detail::WaitRange' and f.cfg is not None]
-        if len(ranges) < 4:
-            ctx.broken('WaitRange instantiations missing (%d)' % len(ranges))
+        ranges = ctx.guard(lambda: check_wait_return(ctx, fb, rr)) or []
         for f in ranges:
-            timed = not f.fta[1].endswith('NoTimeoutTag')
-            key = 'R-WAITRETURN WaitRange<%s>' % ('timed' if timed else 'untimed')
-            res = WaitWalker(fb).run(f)
-            ctx.instance(rr, key + ' :: ' + f.full[:140], dict(paths=len(res), timed=timed))
-            for st, rv in res:
-                ev = st.events
-                names = [e[0] for e in ev]
-                if 'register-pass' not in names:
-                    ctx.broken('WaitRange: registration pass not recognised in %s' % f.full[:120])
-                early = ('none-registered', True) in ev or ('zero', True) in ev and 'wait' not in names
-                if 'reset-pass' in names:
-                    i = names.index('reset-pass')
-                    after = ev[i + 1:]
-                    last_zero = None  # the waiter's own subtraction found zero: it is the last one only if it
-                    for j, e in enumerate(after):  # subtracted something
-                        if e == ('zero', True):
-                            sub = [x for x in after[:j] if x[0] == 'subequal-call']
-                            kind = sub[-1][3] if sub else None
-                            last_zero = kind == 'pos' or (isinstance(kind, tuple) and ('nz', kind[1], True) in ev)
-                            if not last_zero:
-                                ctx.report(rr, key, sub[-1][2] if sub else f.where,
-                                           'the counter is tested for zero by subtracting a number that can be 0 on '
-                                           'this path: zero then means a producer brought it there and may still be '
-                                           'inside Set() on this (returning) stack frame',
-                                           'instantiation: ' + f.full[:300])
-                    if last_zero is False:
-                        break
-                    safe = ('reset-all', True) in after or last_zero or \
-                        any(e[0] == 'wait' and e[1] == 'untimed' for e in after)
-                    if not safe:
-                        ctx.report(rr, key, f.where, 'a timed wait returns after its deadline while a producer that was '
-                                   'not withdrawn may still complete and touch the event on this (returned) stack frame',
-                                   'instantiation: ' + f.full[:300])
-                        break
-                    if rv is not None and rv[0] == 'c' and rv[1] and ('reset-none', True) not in ev:
-                        ctx.report(rr, key, f.where, 'returns true although the deadline passed and some registrations '
-                                   'had to be withdrawn (not all futures are ready)')
-                        break
-                else:
-                    waited = [e for e in ev if e[0] == 'wait']
-                    if not early and not waited:
-                        ctx.report(rr, key, f.where, 'returns without waiting although registered futures are pending')
-                        break
-                    if timed and waited and waited[-1][1] == 'timed' and ('wait-result', True) not in ev:
-                        ctx.report(rr, key, f.where, 'returns after a timed wait that did not report ready, without the '
-                                   'reset pass')
-                        break
             # counter arithmetic
             key = 'R-COUNTER WaitRange registration'
             ctx.instance(rc, key + ' :: ' + f.full[:140], None)
